@@ -112,9 +112,13 @@ def num(q, rng=None):
         return "%.2f" % v
     if k < 0.8:
         return "0" + plain
-    if k < 0.9:
+    if k < 0.86:
         return " " + plain + " "
-    return "+" + plain
+    if k < 0.9:
+        return "+" + plain
+    if k < 0.95:                    # exponent notation, more decimals than needed
+        return ("%de0" % v) if v == int(v) else "%.4f" % v
+    return ("%.1E" % v) if (v * 10) % 10 == 0 and v < 10 else "%.3f" % v
 
 
 def tim(q):
@@ -207,6 +211,27 @@ def _chunk(args):
     return out
 
 
+def big_views():
+    """running orders beyond the enumeration: 11, 12 and 25 stories (offsets are sums of ten and more durations, story
+    numbers get a second digit), one of them starting ten seconds before midnight"""
+    out = []
+    for n, ed in ((12, [400]), (25, [86390 * 4]), (11, [])):
+        stories = []
+        for i in range(1, n + 1):
+            kind = i % 4
+            sid = "S%d" % i
+            body = [{"kind": "p", "text": [72, 105, 32] + [ord(c) for c in str(i)], "mixed": False, "id": NONE},
+                    {"kind": "item", "text": [], "mixed": False, "id": "I1"}]
+            stories.append({"id": sid, "slug": "slug " + sid, "md": "payload",
+                            "sd": [20 + i] if kind in (0, 1) else [], "tt": [12 + 4 * i] if kind == 2 else ([8] if kind == 3 else []),
+                            "mt": [10 + i] if kind == 3 else [], "st": [], "en": [8000 + 40 * i] if i == n - 1 else [],
+                            "body": body,
+                            "items": [{"id": "I1", "slug": "slug I1", "type": "VIDEO", "object_id": "obj.I1", "mos_id": "mos.x",
+                                       "note": "note I1"}]})
+        out.append({"edstart": ed, "exact": True, "stories": stories})
+    return out
+
+
 OBS_CLAUSES = {"obs_total": ("C15",), "obs_agree": ("C15",), "timing": ("C16",), "script_body": ("C17",)}
 
 
@@ -224,6 +249,8 @@ def run(report, tier, seed, families):
                 seen.add(raw)
                 views.append(json.loads(raw)["view"])
         views.sort(key=lambda v: json.dumps(v, sort_keys=True))
+        if fam == "timing":
+            views += big_views()
         todo = [("%s:%d" % (fam, i), v) for i, v in enumerate(views)]
         chunks = [(todo[i:i + 200], seed) for i in range(0, len(todo), 200)]
         ctx = multiprocessing.get_context("fork")
